@@ -493,6 +493,9 @@ class _FragmentCompiler:
             domain_process = PyRTLProcess(is_comb=domain_name == "comb")
             lhs_masks = LHSMaskCollector()
             lhs_masks.visit_stmt(domain_stmts)
+            # Signals that the domain reset applies to; memory read port registers are not among them
+            # (they have no reset, like the `SyncReadPort` cell in the netlist).
+            reset_signals = [signal for (signal, _) in lhs_masks.masks()]
 
             if isinstance(fragment, MemoryInstance):
                 for port in fragment._read_ports:
@@ -551,7 +554,7 @@ class _FragmentCompiler:
                     emitter.append(f"if {rst}:")
                     with emitter.indent():
                         emitter.append("pass")
-                        for (signal, _) in lhs_masks.masks():
+                        for signal in reset_signals:
                             if not signal.reset_less:
                                 signal_index = self.state.get_signal(signal)
                                 emitter.append(f"next_{signal_index} = {signal.init}")
